@@ -10,7 +10,11 @@ using namespace soplex; using namespace vph;
 #ifndef NV
 #define NV 3
 #endif
-#ifndef NR
+// shape: -DVNR=.. -DVNC=.. (not NR/NC on the command line: lp_build.h uses these names for template parameters)
+#ifdef VNR
+#define NR VNR
+#define NC VNC
+#else
 #define NR 2
 #define NC 2
 #endif
